@@ -102,6 +102,7 @@ def alertjob (args : List String) : String :=
 
 /- suite "alertjob", second line kind: ajs <op> <op> ...     (Model/AlertSet.lean; alerts numbered by create attempt)
      op ::= c<w>/<i>       create a Logs alert, EvalWindow w, EvalInterval i
+          | m<w>/<i>       create a Metrics alert (alert_type 2 with a metrics query)
           | k<type>        create with window 1, interval 1 and alert_type <type> (not 2: a Metrics alert needs a query)
           | u<k>:<w>/<i>   update alert k        | d<k>  delete alert k
           | z<k> | y<k>    the row of alert k is rewritten behind the API to interval 0 / to alert_type 0
@@ -117,6 +118,7 @@ def parseSetOp (s : String) : Option SigModel.AlertSet.Op :=
     | _ => none
   if s = "R" then some .restart
   else if s.startsWith "c" then (pair rest).map (fun p => .create p.1 p.2)
+  else if s.startsWith "m" then (pair rest).map (fun p => .createMetrics p.1 p.2)
   else if s.startsWith "k" then rest.toNat?.bind (fun t => if t = 2 then none else some (.createTyped t))
   else if s.startsWith "d" then rest.toNat?.map .delete
   else if s.startsWith "z" then rest.toNat?.map .legacyInterval
@@ -152,6 +154,7 @@ def handle (cmd : String) (args : List String) : Option String :=
   match cmd with
   | "alert" => some (alert args)
   | "aj" => some (alertjob args)
+  | "ajm" => some (alertjob args)      -- the same operations on a Metrics alert (the state machine knows no alert type)
   | "ajs" => some (alertset args)
   | _ => none
 end Oracle.C20
